@@ -108,21 +108,13 @@ theorem sysSeccomp_preserves (id : FilterId) (op flags : Nat) (uargs : Option Pr
       have ht' : t ∈ w.live := by simpa [schedStep_live] using ht
       simp only [ht', if_true]
       exact List.mem_cons_of_mem _ (hcov _ hcl)
-  · unfold sysSeccomp
-    simp only
-    split
-    · exact ⟨hcl, hcov⟩
-    · by_cases hop0 : op = SECCOMP_SET_MODE_STRICT
-      · rw [if_pos hop0]
-        split
-        · exact ⟨hcl, hcov⟩
-        · refine ⟨hcl, fun t ht => ?_⟩
-          by_cases htc : t = (schedStep w).cur
-          · subst htc; simp only [World.upd_thr_self]; exact hcov _ hcl
-          · rw [World.upd_thr_ne _ _ _ _ htc]; exact hcov t ht
-      · have : ¬ op = SECCOMP_SET_MODE_FILTER := hop
-        rw [if_neg hop0, if_neg this]
-        exact ⟨hcl, hcov⟩
+  · rcases sysSeccomp_other op flags uargs w hop with h' | h'
+    · rw [h']; exact ⟨hcl, hcov⟩
+    · rw [h']
+      refine ⟨hcl, fun t ht => ?_⟩
+      by_cases htc : t = (schedStep w).cur
+      · subst htc; simp only [World.upd_thr_self]; exact hcov _ hcl
+      · rw [World.upd_thr_ne _ _ _ _ htc]; exact hcov t ht
 
 theorem sysPrctl_preserves (id : FilterId) (o a1 a2 a3 a4 : Nat) (w : World) (hwf : WF w) (h : Covered id w) :
     WF (sysPrctl o a1 a2 a3 a4 w).2.2 ∧ Covered id (sysPrctl o a1 a2 a3 a4 w).2.2 := by
